@@ -284,13 +284,26 @@ def ensure_built(header):
     return _BUILT[targets]
 
 
+def _case_dir(tag):
+    """A fresh directory for generated cases files, private to this process: two runs of the same check at the
+    same time (a seed run beside a full pass) must not delete each other's files.  Directories left by processes
+    that no longer exist are removed."""
+    os.makedirs(WORK, exist_ok=True)
+    for n in os.listdir(WORK):
+        m = re.fullmatch(re.escape(tag) + r"\.(\d+)", n)
+        if m and not os.path.exists("/proc/" + m.group(1)):
+            shutil.rmtree(os.path.join(WORK, n), ignore_errors=True)
+    d = os.path.join(WORK, "%s.%d" % (tag, os.getpid()))
+    shutil.rmtree(d, ignore_errors=True)
+    os.makedirs(d)
+    return d
+
+
 def coq_failing(tag, header, ty, fn, cases, shard=400, timeout=900):
     """Evaluate the boolean Gallina function `fn : ty -> bool` on every case
     (Gallina literal text) inside Coq and return (bad_indices, errors).
     `header` holds the Require lines and any local definitions."""
-    d = os.path.join(WORK, tag)
-    shutil.rmtree(d, ignore_errors=True)
-    os.makedirs(d)
+    d = _case_dir(tag)
     err = ensure_built(header)
     if err:
         return [], [("model libraries", err)]
@@ -318,12 +331,14 @@ def coq_failing(tag, header, ty, fn, cases, shard=400, timeout=900):
             errors.append((path, out[-3000:]))
         else:
             bad.extend(k + i for i in idx)
+    if not errors:
+        shutil.rmtree(d, ignore_errors=True)
     return sorted(bad), errors
 
 
 def coq_eval(tag, header, expr, timeout=300):
     """Evaluate one Gallina expression with vm_compute and return Coq's text."""
-    d = os.path.join(WORK, tag)
+    d = os.path.join(WORK, "%s.%d" % (tag, os.getpid()))
     os.makedirs(d, exist_ok=True)
     err = ensure_built(header)
     if err:
